@@ -225,7 +225,9 @@ func checkC23(c *Ctx) (string, []string) {
 		inWin := condEdges(tail, func(v ssa.Value) (bool, bool) {
 			return abbr(exprStr(v, shapeOpts)) == "("+S+"GetSlotIndex(post.GetTau(POST)) < u32(types.SlotSubmissionEnd))", true
 		})
-		tooMany := condEdges(tail, func(v ssa.Value) (bool, bool) { return abbr(exprStr(v, shapeOpts)) == "(types.ValidatorsCount < len(p0))", true })
+		tooMany := condEdges(tail, func(v ssa.Value) (bool, bool) {
+			return abbr(exprStr(v, shapeOpts)) == "(types.ValidatorsCount < len(p0))", true
+		})
 		any := condEdges(tail, func(v ssa.Value) (bool, bool) { return abbr(exprStr(v, shapeOpts)) == "(0 != len(p0))", true })
 		ok := len(inWin) == 1 && len(tooMany) == 1 && len(any) == 1 &&
 			guardedBy(tail, tooMany[0].from.Instrs[len(tooMany[0].from.Instrs)-1], inWin) &&
@@ -234,7 +236,9 @@ func checkC23(c *Ctx) (string, []string) {
 	}
 	c.checkCondSet("C23.comparisons", S+"GetPreviousTicketsAccumulator", prev, []string{"(" + S + "GetEpochIndex(prior.GetTau(PRIOR)) < " + S + "GetEpochIndex(post.GetTau(POST)))"})
 	{
-		newer := condEdges(prev, func(v ssa.Value) (bool, bool) { return strings.HasPrefix(abbr(exprStr(v, shapeOpts)), "("+S+"GetEpochIndex(prior.GetTau(PRIOR)) < "), true })
+		newer := condEdges(prev, func(v ssa.Value) (bool, bool) {
+			return strings.HasPrefix(abbr(exprStr(v, shapeOpts)), "("+S+"GetEpochIndex(prior.GetTau(PRIOR)) < "), true
+		})
 		ok := len(newer) == 1
 		allInstrs(prev, func(in ssa.Instruction) {
 			if r, isR := in.(*ssa.Return); isR {
@@ -254,7 +258,9 @@ func checkC23(c *Ctx) (string, []string) {
 		full := condEdges(usk, func(v ssa.Value) (bool, bool) {
 			return abbr(exprStr(v, shapeOpts)) == "(types.EpochLength == len(*cell(prior.GetGammaA(PRIOR))))", true
 		})
-		late := condEdges(usk, func(v ssa.Value) (bool, bool) { return abbr(exprStr(v, shapeOpts)) == "(types.SlotSubmissionEnd <= int(p2))", true })
+		late := condEdges(usk, func(v ssa.Value) (bool, bool) {
+			return abbr(exprStr(v, shapeOpts)) == "(types.SlotSubmissionEnd <= int(p2))", true
+		})
 		same := condEdges(usk, func(v ssa.Value) (bool, bool) { return abbr(exprStr(v, shapeOpts)) == "(p0 == p1)", true })
 		var zCall, fCall, gsCall ssa.Instruction
 		allInstrs(usk, func(in ssa.Instruction) {
@@ -278,9 +284,15 @@ func checkC23(c *Ctx) (string, []string) {
 			ok = ok && guardedBy(usk, fCall, notSame)
 		}
 		c.Check(ok, "C23.sealer-sequence", S+"UpdateSlotKeySequence · arms", usk.Pos(), "Z(γ_a) behind all three conjuncts; γ_s behind e'=e; F otherwise", "the ticket-based sequence is not guarded by e'=e+1 ∧ m≥Y ∧ |γ_a|=E, or the other arms are not selected as in GP 6.24")
-		fa := callArgShapes(usk, func(ci ssa.CallInstruction) bool { return calleeFunc(ci) != nil && calleeFunc(ci).Name() == "FallbackKeySequence" }, 0)
-		fb := callArgShapes(usk, func(ci ssa.CallInstruction) bool { return calleeFunc(ci) != nil && calleeFunc(ci).Name() == "FallbackKeySequence" }, 1)
-		za := callArgShapes(usk, func(ci ssa.CallInstruction) bool { return calleeFunc(ci) != nil && calleeFunc(ci).Name() == "OutsideInSequencer" }, 0)
+		fa := callArgShapes(usk, func(ci ssa.CallInstruction) bool {
+			return calleeFunc(ci) != nil && calleeFunc(ci).Name() == "FallbackKeySequence"
+		}, 0)
+		fb := callArgShapes(usk, func(ci ssa.CallInstruction) bool {
+			return calleeFunc(ci) != nil && calleeFunc(ci).Name() == "FallbackKeySequence"
+		}, 1)
+		za := callArgShapes(usk, func(ci ssa.CallInstruction) bool {
+			return calleeFunc(ci) != nil && calleeFunc(ci).Name() == "OutsideInSequencer"
+		}, 0)
 		c.Check(len(fa) == 1 && abbr(fa[0]) == "cell(post.GetEta(POST))[2]" && len(fb) == 1 && abbr(fb[0]) == "post.GetKappa(POST)" && len(za) == 1 && abbr(za[0]) == "cell(prior.GetGammaA(PRIOR))", "C23.sealer-sequence", S+"UpdateSlotKeySequence · operands", usk.Pos(), "Z(prior γ_a), F(η'_2, κ')", fmt.Sprintf("operands: Z(%v), F(%v, %v)", za, fa, fb))
 	}
 	c.checkEffects("C23.sealer-sequence", S+"OutsideInSequencer", oi, abbrAll(effectShapesOpt(oi, nil, true)), []string{
